@@ -154,7 +154,11 @@ def check_case(root, spec, pp, cfg, out, armed, excl=None):
                 with util.chdir(root):
                     here = WP.Path('.')
                     ry = set(here.rglob(text, flags=fl, **xkw))
-                    for rel in entries[:25]:
+                    # ... and paths that run through symlinked directories (rglob reaches them only when its globstars follow links)
+                    linked = [p_ for p_, _d, _l in model.all_entries(follow=True, max_depth=4)
+                              if '..' not in p_.split('/') and p_ not in entries and any(C06.link_flags(os.getcwd(), p_.split('/'))[:-1])]
+                    out.stats['match_rglob_paths_through_links'] += len(linked[:10])
+                    for rel in entries[:25] + linked[:10]:
                         q = WP.Path(rel)
                         m = q.match(text, flags=fl | G.REALPATH, **xkw)
                         out.evaluations += 1
@@ -300,13 +304,16 @@ def run_fixed(desc):
         # match() is right-anchored like rglob(): q.match(p, REALPATH) iff rglob(p) yields q, for patterns with a globstar in the
         # middle and paths that have extra leading components
         mr_tree = [('d', 'a'), ('d', 'a/b'), ('f', 'a/b/x'), ('d', 'd'), ('d', 'd/a'), ('d', 'd/a/b'), ('f', 'd/a/b/x'), ('f', 'a/x'), ('f', 'd/a/x'),
-                   ('f', 'x'), ('d', 'b'), ('f', 'b/x'), ('d', 'd/d'), ('d', 'd/d/a'), ('f', 'd/d/a/x'), ('d', 'a/b/c'), ('f', 'a/b/c/x')]
+                   ('f', 'x'), ('d', 'b'), ('f', 'b/x'), ('d', 'd/d'), ('d', 'd/d/a'), ('f', 'd/d/a/x'), ('d', 'a/b/c'), ('f', 'a/b/c/x'),
+                   ('l', 'ld', 'a'), ('l', 'd/lb', '../b')]
+        # paths that run through the symlinked directories: rglob() reaches them only when its globstars follow links, and so must match()
+        mr_linked = ['ld/x', 'ld/b/x', 'ld/b', 'ld/b/c/x', 'd/lb/x', 'ld/b/c']
         mr_pats = ['a/**/x', 'a/**/b/x', 'a/**', 'b/x', '*/x', 'a/*/x', 'a/b/x', 'a/**/**/x', 'x', 'a/**/c/x', '?/**/x', 'a/***/x', 'd/**/a/**/x',
                    'b/**/x', 'a/b/**', 'b/', 'a/b/', 'd/a/', '*/b/']      # (a trailing `**/` is the K16 zone)
         with FC.built_tree(mr_tree) as (mroot, _r3):
             with util.chdir(mroot):
                 here = WP.Path('.')
-                ents = [e[1] for e in mr_tree]
+                ents = [e[1] for e in mr_tree] + mr_linked
                 for pat in mr_pats:
                     for fl in (G.GLOBSTAR, G.GLOBSTAR | G.DOTGLOB, G.GLOBSTARLONG | G.GLOBSTAR, G.GLOBSTAR | G.EXTGLOB, G.GLOBSTARLONG,
                                G.GLOBSTAR | G.MATCHBASE, G.MATCHBASE, G.GLOBSTAR | G.MATCHBASE | G.FOLLOW, 0):
@@ -318,7 +325,7 @@ def run_fixed(desc):
                             out.evaluations += 1
                             m = bool(q.match(pat, flags=fl | G.REALPATH))
                             # for a file the pure (string-only) match sees the same text; a directory gets its separator only under REALPATH
-                            pm = m if os.path.isdir(rel) else bool(WP.PurePosixPath(rel).match(pat, flags=fl))
+                            pm = m if (os.path.isdir(rel) or rel in mr_linked) else bool(WP.PurePosixPath(rel).match(pat, flags=fl))
                             if m != (q in ry) or pm != m:
                                 out.violation({'mode': 'fixed', 'call': 'Path(%r).match(%r, flags=%d|REALPATH)' % (rel, pat, fl), 'match': m,
                                                'pure_match': pm, 'rglob_yields': q in ry,
